@@ -3,7 +3,7 @@
 
 mod clock_state_fsm;
 
-use clock_bound_shm::{ClockErrorBound, ShmWrite, ShmWriter};
+use clock_bound_shm::{ClockErrorBound, ClockStatus, ShmWrite, ShmWriter};
 use chrony_candm::reply::Tracking;
 use std::path::Path;
 use std::time::Duration;
@@ -42,6 +42,10 @@ where
 
     /// Reserved field.  Place-holder that is reserved for future use.
     reserved1: u32,
+
+    /// Whether `bound_nsec` and `as_of` come from a synchronized chrony report. Until they do,
+    /// they are placeholders and no status other than Unknown may be published with them.
+    measured: bool,
 }
 
 impl<W> ShmUpdater<W>
@@ -60,6 +64,7 @@ where
                 tv_nsec: 0,
             },
             reserved1: 0,
+            measured: false,
         }
     }
 
@@ -78,13 +83,21 @@ where
             tv_nsec: 0,
         };
 
+        // Before a first synchronized report there is no measurement behind `bound_nsec` and
+        // `as_of`: whatever the FSM says, clients must not be told to trust them.
+        let clock_status = if self.measured {
+            self.shm_clock_state.value()
+        } else {
+            ClockStatus::Unknown
+        };
+
         let ceb = ClockErrorBound::new(
             self.as_of,
             void_after,
             self.bound_nsec,
             self.max_drift_ppb,
             self.reserved1,
-            self.shm_clock_state.value(),
+            clock_status,
         );
 
         debug!("Writing ClockErrorBound to shared memory {:?}", ceb);
@@ -120,6 +133,7 @@ where
         if clock_status == ChronyClockStatus::Synchronized {
             self.bound_nsec = bound_nsec;
             self.as_of = as_of;
+            self.measured = true;
         }
 
         // Finally write the new CEB out to shared memory.
